@@ -125,6 +125,13 @@ def reduce (st : Stat) (xs : List Val) : Val :=
   | .median => reduceMedian xs
   | .percentile q => reducePercentile q xs
 
+/-- Combine two partial results of a reducer, `nan` meaning "no value" (used to state the
+partition theorems). -/
+def nanCombine (op : Val → Val → Val) : Val → Val → Val
+  | .nan, b => b
+  | a, .nan => a
+  | a, b => op a b
+
 /-! ## n-d machinery -/
 
 abbrev Idx := List Nat
@@ -491,7 +498,7 @@ def histKeep (lo hi : Rat) (xs : List (Val × Rat)) : List (Rat × Rat) :=
 inductive HistOut where
   | bins (b : List Rat)
   | valueError
-  deriving Repr, BEq
+  deriving Repr, DecidableEq
 
 /-- `Data.compute_histogram` (1-d) after the selection has been applied: `xs` = selected
 (value, weight) pairs (weight 1 without a weights attribute). Models the repaired nudge
